@@ -398,7 +398,7 @@ func (ee *explainer) explainSeqMappings(mm []mapping) {
 		sep = ", "
 
 		canRange := len(mm) > 2
-		for i := 1; canRange && i < len(mm); i++ {
+		for i := 0; canRange && i < len(mm); i++ {
 			if len(mm[i].from) != 1 || len(mm[i].to) != 1 {
 				canRange = false
 			}
